@@ -27,7 +27,30 @@ func (ex *c12Exec) rv(v c12Val) c12Val {
 	if s, ok := ex.store[key]; ok {
 		return s
 	}
+	if !strings.Contains(r.Path, ".") && len(r.Idx) == 0 {
+		return r // the object itself (receiver passed on to a helper)
+	}
+	if len(r.Idx) > 0 {
+		return c12Load{Path: r.Path, Idx: r.Idx}
+	}
 	return c12Sym{Hole: -1, Desc: key}
+}
+
+// argVal evaluates a call argument: pointers into the receiver state stay references.
+func (ex *c12Exec) argVal(fr *c12Frame, a ast.Expr) c12Val {
+	v := ex.expr(fr, a)
+	if r, ok := v.(c12Ref); ok {
+		if _, isPtr := fr.info.TypeOf(a).Underlying().(*types.Pointer); isPtr {
+			key := r.Path
+			for _, ix := range r.Idx {
+				key += "[" + c12Show(ix) + "]"
+			}
+			if _, stored := ex.store[key]; !stored {
+				return r
+			}
+		}
+	}
+	return ex.rv(v)
 }
 
 func (ex *c12Exec) constVal(fr *c12Frame, e ast.Expr) (c12Val, bool) {
@@ -83,7 +106,22 @@ func (ex *c12Exec) expr(fr *c12Frame, e ast.Expr) c12Val {
 				return c12Int{-i.V}
 			}
 		case token.ARROW:
-			ex.expr(fr, t.X)
+			// a receive: an unknown value; fixed-size arrays keep their shape so that element order is visible
+			ch := ex.expr(fr, t.X)
+			name := canonExpr(fr.info, t.X)
+			if r, ok := ch.(c12Ref); ok {
+				name = r.Path
+			}
+			if ct, ok := fr.info.TypeOf(t.X).Underlying().(*types.Chan); ok {
+				if at, ok := ct.Elem().Underlying().(*types.Array); ok && at.Len() <= 8 {
+					var el []c12Val
+					for i := int64(0); i < at.Len(); i++ {
+						el = append(el, c12Sym{Hole: -1, Desc: fmt.Sprintf("received %s[%d]", name, i)})
+					}
+					return c12Slice{Elems: el}
+				}
+			}
+			return c12Sym{Hole: -1, Desc: "received " + name}
 		}
 		return c12Sym{Hole: -1, Desc: canonExpr(fr.info, e)}
 	case *ast.BinaryExpr:
@@ -117,6 +155,10 @@ func (ex *c12Exec) expr(fr *c12Frame, e ast.Expr) c12Val {
 				if i, ok := idx.(c12Int); ok && i.V >= 0 && int(i.V) < len(s) {
 					return c12Int{int64(s[i.V])}
 				}
+			}
+		case c12Load:
+			if len(b.Sel) == 0 {
+				return c12Load{Path: b.Path + "[]", Idx: append(append([]c12Val{}, b.Idx...), idx)}
 			}
 		}
 		return c12Sym{Hole: -1, Desc: canonExpr(fr.info, e)}
@@ -170,6 +212,8 @@ func (ex *c12Exec) selector(fr *c12Frame, t *ast.SelectorExpr) c12Val {
 		if s, ok := b.X.(*c12Struct); ok {
 			return ex.fieldOf(fr, s, t)
 		}
+	case c12Load:
+		return c12Load{Path: b.Path, Idx: b.Idx, Sel: append(append([]string{}, b.Sel...), "."+t.Sel.Name)}
 	}
 	return c12Sym{Hole: -1, Desc: canonExpr(fr.info, t)}
 }
@@ -360,6 +404,9 @@ func (ex *c12Exec) binary(fr *c12Frame, t *ast.BinaryExpr) c12Val {
 	}
 	l := ex.rv(ex.expr(fr, t.X))
 	r := ex.rv(ex.expr(fr, t.Y))
+	// an unknown comparison is described by the values compared, so that the same question asked twice
+	// on a path gets the same answer (see truth)
+	unknown = c12Sym{Hole: -1, Desc: "(" + c12Show(l) + t.Op.String() + c12Show(r) + ")"}
 	switch t.Op {
 	case token.EQL, token.NEQ:
 		eq, known := c12Eq(l, r)
@@ -473,7 +520,7 @@ func (ex *c12Exec) call(fr *c12Frame, call *ast.CallExpr) c12Val {
 	var args []c12Val
 	var argTypes []types.Type
 	for _, a := range call.Args {
-		args = append(args, ex.rv(ex.expr(fr, a)))
+		args = append(args, ex.argVal(fr, a))
 		argTypes = append(argTypes, fr.info.TypeOf(a))
 	}
 	if call.Ellipsis.IsValid() && len(args) > 0 {
@@ -492,7 +539,13 @@ func (ex *c12Exec) call(fr *c12Frame, call *ast.CallExpr) c12Val {
 		return ex.unknownResult(fr, call)
 	}
 	name := fullName(fn)
-	rec := c12CallRec{Fn: fn, Name: name, Args: args, ArgTypes: argTypes, Recv: recv, Call: call, In: fr.fn}
+	rec := c12CallRec{Fn: fn, Name: name, Args: args, ArgTypes: argTypes, Recv: recv, Call: call, In: fr.fn, NCond: len(ex.path.Conds)}
+	if ex.snap {
+		rec.Store = map[string]c12Val{}
+		for k, v := range ex.store {
+			rec.Store[k] = v
+		}
+	}
 	// sink: a write to the terminal / pty
 	if ex.sink != nil {
 		if ai, isFmt, _, ok := ex.sink(fr.pk, call, fn); ok && ai < len(args) {
@@ -600,7 +653,7 @@ func (ex *c12Exec) call(fr *c12Frame, call *ast.CallExpr) c12Val {
 		return c12Sym{Hole: -1, Desc: canonExpr(fr.info, call)}
 	}
 	// repository callee
-	if fi := ex.p.FuncOfObj(fn); fi != nil && ex.shouldInline(fi) {
+	if fi := ex.p.FuncOfObj(fn); fi != nil && ex.shouldInline(fi, args) {
 		rec.Inlined = true
 		ex.path.Calls = append(ex.path.Calls, rec)
 		res := ex.callDecl(fi, recv, args)
@@ -613,6 +666,13 @@ func (ex *c12Exec) call(fr *c12Frame, call *ast.CallExpr) c12Val {
 		return c12Tuple{Vals: res}
 	}
 	ex.path.Calls = append(ex.path.Calls, rec)
+	if fi := ex.p.FuncOfObj(fn); fi != nil && fi.Pkg == ex.entryPkg && fi.Decl.Body != nil && ex.inlineIf == nil {
+		for _, a := range args {
+			if r, isRef := a.(c12Ref); isRef {
+				ex.path.Unsupp = append(ex.path.Unsupp, fmt.Sprintf("%s receives a reference to %s but is too large to follow", fi.Name, r.Path))
+			}
+		}
+	}
 	sig := fn.Type().(*types.Signature)
 	switch sig.Results().Len() {
 	case 0:
@@ -739,6 +799,12 @@ func (ex *c12Exec) builtin(fr *c12Frame, name string, call *ast.CallExpr) c12Val
 					if l, ok := s.literal(); ok {
 						return c12Int{int64(len(l))}
 					}
+				}
+			case c12Load:
+				return c12Sym{Hole: -1, Desc: name + "(" + v.Path + strings.Join(v.Sel, "") + ")"}
+			case c12Sym:
+				if r, isRef := ex.expr(fr, call.Args[0]).(c12Ref); isRef && v.Hole < 0 {
+					return c12Sym{Hole: -1, Desc: name + "(" + r.Path + ")"}
 				}
 			}
 		}
